@@ -664,6 +664,17 @@ def judge(case, rep, S):
         pass
     except TapeExhausted:
         rep.cnt("runs_stopped_by_a_non_terminating_move")
+    except Exception as e:
+        # a block or cluster move that declines (the library's own exception: no arrangement with another delta found, too few
+        # charged residues) ends the run; on chains with a handful of arrangements that happens.  The steps taken up to there
+        # have been judged one by one; the statement does not speak about runs a move refuses to continue
+        import traceback
+        frames = traceback.extract_tb(e.__traceback__)
+        inner = frames[-1].name if frames else ""
+        if type(e).__module__.startswith("localcider") and inner in ("permute_block_swap", "permute_cluster_charges"):
+            rep.cnt("runs_ended_by_a_declining_move")
+        else:
+            raise
     finally:
         wl._verif_sink = None
         _cfg["monitor"] = None
